@@ -473,7 +473,7 @@ def write_nc(inp, path, rng=None):
     leads = [inp["leadtimes"][i] for i in ol]
     locs = [inp["locs"][i] for i in os_]
     T, L, S = len(times), len(leads), len(locs)
-    f = netCDF4.Dataset(path, "w", format="NETCDF4")
+    f = netCDF4.Dataset(path, "w", format=st.get("format", "NETCDF4"))
     try:
         f.createDimension("time", None)
         f.createDimension("leadtime", L)
